@@ -76,9 +76,31 @@ def oracle(sc, tr, extra):
     return out
 
 
+def failed_addresses(rep, tier):
+    """descriptors opened on the way to the connection: when an earlier resolved address fails (socket set-up or connect) and a
+    later one succeeds, or all fail, no socket of a failed attempt may stay open -- whatever the consumer does afterwards"""
+    import itertools
+    from . import c09
+    n = 0
+    for naddr in range(1, 4 if tier == "quick" else 5):
+        for create_ok in itertools.product((True, False), repeat=naddr):
+            for connect_ok in itertools.product((True, False), repeat=naddr):
+                for secure in (False, True):
+                    complaint, exp, res, log = c09.judge_connect(True, create_ok, connect_ok, False, secure)
+                    n += 1
+                    rep.add_case(("failed-addresses", create_ok, connect_ok, secure))
+                    if complaint and "not closed" in complaint:
+                        rep.violation("a descriptor stays open behind the WebSocket: " + complaint,
+                                      scenario=dict(kind="connect_each", resolve_ok=True, create_ok=list(create_ok), connect_ok=list(connect_ok), v6=False, secure=secure),
+                                      family="C13:failed-addresses")
+    rep.families.append(dict(name="C13:failed-addresses", cases=n, exhaustive=True,
+                             rule="real _connect_sock against a fake socket module, every pattern of per-address socket()/connect() success and failure for up to %d addresses, plain and TLS: the sockets of the failed attempts are closed" % (3 if tier == "quick" else 4)))
+
+
 def run(rep, info, model, tier, seed):
     rnd = random.Random(seed)
     proof_ok = rep.proof_obligations(info, "props/C13.v")
+    failed_addresses(rep, tier)
     scs = []
     for name, steps, extra in bases(rnd, 6 if tier == "quick" else 40):
         cfgkw = {k: v for k, v in extra.items() if not k.startswith("_")}
@@ -121,4 +143,12 @@ def run(rep, info, model, tier, seed):
 
 
 def replay(body):
+    sc = body.get("scenario") or {}
+    if sc.get("kind") == "connect_each":
+        from . import c09
+        complaint, exp, res, log = c09.judge_connect(sc["resolve_ok"], sc["create_ok"], sc["connect_ok"], bool(sc.get("v6")), bool(sc.get("secure")))
+        bad = bool(complaint and "not closed" in complaint)
+        print("socket module calls:", log)
+        print("REPLAY:", ("VIOLATION reproduced: %s" % complaint) if bad else "property holds on this input")
+        return 1 if bad else 0
     return fam.replay_generic(body, {"C13:abandon-at-every-event": oracle})
